@@ -177,7 +177,13 @@ func writeUnbrotli(w io.Writer, p []byte, maxBodySize int) (int, error) {
 		return 0, err
 	}
 	n, err := copyZeroAllocWithLimit(w, zr, maxBodySize)
-	releaseBrotliReader(zr)
+	if err == nil {
+		// Reuse the reader only after it has decoded a whole stream. When
+		// decoding stops early (size limit, corrupted data) the reader still
+		// holds unconsumed input of this stream, which brotli.Reader.Reset
+		// doesn't drop: it would be decoded in front of the next body.
+		releaseBrotliReader(zr)
+	}
 	nn := int(n)
 	if int64(nn) != n {
 		return 0, fmt.Errorf("too much data unbrotlied: %d", n)
